@@ -39,10 +39,13 @@ theorem string_escape_class (b : Nat) (hb : b < 256) :
 /-- the class `_encode_qdstring` escapes is exactly quote and backslash -/
 theorem encode_qdstring_class : Regexes.schema_encode_qdstring = .cls [(39, 39), (92, 92)] := by rfl
 
-/-- the pattern `_parse_qdstring` substitutes is exactly `\5[Cc]` or `\27` -/
+/-- the pattern `_parse_qdstring` substitutes is exactly `\5[Cc]` or `\27`
+    (CPython's `sre_parse` factors the common leading backslash out of the alternation, so the
+    translated term is `\(?:5[Cc]|27)`) -/
 theorem parse_qdstring_pattern :
     Regexes.schema_parse_qdstring =
-      .alt (.cat (.cls [(92, 92)]) (.cat (.cls [(53, 53)]) (.cls [(67, 67), (99, 99)])))
-           (.cat (.cls [(92, 92)]) (.cat (.cls [(50, 50)]) (.cls [(55, 55)]))) := by rfl
+      .cat (.cls [(92, 92)])
+        (.alt (.cat (.cls [(53, 53)]) (.cls [(67, 67), (99, 99)]))
+              (.cat (.cls [(50, 50)]) (.cls [(55, 55)]))) := by rfl
 
 end Verif.Ties
